@@ -192,8 +192,16 @@ def create_rs():
     f = flat(src)
     if "if letSome(metadata)=&self.metadata{(metadata.body.state_root,metadata.body.contract_id)}else{letmetadata=CreateMetadata::compute(self)?;(metadata.state_root,metadata.contract_id)}".replace(" ", "") not in f:
         raise TranslateError("create.rs check_unique_rules: source of (state_root, contract_id) changed")
-    if "Output::ContractCreated{contract_id,state_root,}ifcontract_id!=&contract_id_calculated||state_root!=&state_root_calculated=>" not in f:
+    m = re.search(r"Output::ContractCreated\{contract_id,state_root,?\}ifcontract_id!=&contract_id_calculated(\|\||&&)state_root!=&state_root_calculated=>"
+                  r"\{?Err\(ValidityError::TransactionCreateOutputContractCreatedDoesntMatch\{index,?\},?\)\}?", f)
+    if not m:
         raise TranslateError("create.rs check_unique_rules: ContractCreated comparison changed")
+    # the arms that follow: a second ContractCreated is `Multiple`, the first sets the flag; afterwards the flag is required
+    if "Output::ContractCreated{..}ifcontract_created=>{Err(ValidityError::TransactionCreateOutputContractCreatedMultiple{index,})}Output::ContractCreated{..}=>{contract_created=true;Ok(())}" not in f:
+        raise TranslateError("create.rs check_unique_rules: Multiple / flag arms changed")
+    if "if!contract_created{returnErr(ValidityError::TransactionOutputDoesntContainContractCreated);}" not in f:
+        raise TranslateError("create.rs check_unique_rules: final contract_created test changed")
+    return m.group(1) == "||"
 
 
 META = {"contract_root": "contractRoot", "state_root": "stateRoot", "contract_id": "contractId"}
@@ -253,7 +261,7 @@ def main():
     hasher()
     tree_key()
     owner_parts = input_rs()
-    create_rs()
+    guard_or = create_rs()
     dfields = deploy_inner()
     croo()
     L = []
@@ -285,6 +293,10 @@ def main():
     L.append("def deployRootField : MetaField := .%s" % dfields[0])
     L.append("def deployStateRootField : MetaField := .%s" % dfields[1])
     L.append("def deployIdField : MetaField := .%s" % dfields[2])
+    L.append("")
+    L.append("/-- `check_unique_rules` (create.rs): the `DoesntMatch` guard on `Output::ContractCreated` joins")
+    L.append("`contract_id != calculated` and `state_root != calculated` with `||` (true) or `&&` (false) -/")
+    L.append("def createGuardIsOr : Bool := %s" % ("true" if guard_or else "false"))
     L.append("")
     L.append("end FuelVerif.Gen.Contract")
     text = "\n".join(L) + "\n"
